@@ -81,6 +81,128 @@ theorem PModel.get?_restrict (m : PModel) (vars : List Var) (v : Nat) :
       · subst hkv; simp at hk; simp [hk]
       · simp [hkv]
 
+/-! ### cached models are dicts: the key list is strictly increasing -/
+
+/-- a model is a dict (one entry per variable): `PModel.insert` keeps the list strictly sorted by variable -/
+def PModel.Sorted (m : PModel) : Prop := (m.map (·.1)).Pairwise (· < ·)
+
+theorem PModel.sorted_nil : PModel.Sorted [] := List.Pairwise.nil
+
+theorem PModel.sorted_single (k x : Nat) : PModel.Sorted [(k, x)] := by simp [PModel.Sorted]
+
+theorem PModel.mem_insert (m : PModel) (k x : Nat) : ∀ p ∈ m.insert k x, p.1 = k ∨ p ∈ m := by
+  induction m with
+  | nil => intro p hp; simp only [PModel.insert, List.mem_singleton] at hp; subst hp; exact Or.inl rfl
+  | cons hd tl ih =>
+    obtain ⟨k', x'⟩ := hd
+    intro p hp
+    simp only [PModel.insert] at hp
+    split at hp
+    · rcases List.mem_cons.mp hp with rfl | hp
+      · exact Or.inl rfl
+      · exact Or.inr hp
+    · split at hp
+      · rcases List.mem_cons.mp hp with rfl | hp
+        · exact Or.inl rfl
+        · exact Or.inr (List.mem_cons_of_mem _ hp)
+      · rcases List.mem_cons.mp hp with rfl | hp
+        · exact Or.inr (by simp)
+        · rcases ih p hp with h | h
+          · exact Or.inl h
+          · exact Or.inr (List.mem_cons_of_mem _ h)
+
+theorem PModel.sorted_insert {m : PModel} (h : m.Sorted) (k x : Nat) : (m.insert k x).Sorted := by
+  induction m with
+  | nil => exact PModel.sorted_single k x
+  | cons hd tl ih =>
+    obtain ⟨k', x'⟩ := hd
+    simp only [PModel.Sorted, List.map_cons, List.pairwise_cons] at h
+    obtain ⟨h1, h2⟩ := h
+    simp only [PModel.insert]
+    split
+    · rename_i hlt
+      simp only [PModel.Sorted, List.map_cons, List.pairwise_cons]
+      refine ⟨?_, h1, h2⟩
+      intro a ha
+      rcases List.mem_cons.mp ha with rfl | ha
+      · exact hlt
+      · exact Nat.lt_trans hlt (h1 a ha)
+    · split
+      · rename_i _ heq
+        subst heq
+        simp only [PModel.Sorted, List.map_cons, List.pairwise_cons]
+        exact ⟨h1, h2⟩
+      · rename_i hnlt hne
+        simp only [PModel.Sorted, List.map_cons, List.pairwise_cons]
+        refine ⟨?_, ih h2⟩
+        intro a ha
+        obtain ⟨p, hp, rfl⟩ := List.mem_map.mp ha
+        rcases PModel.mem_insert tl k x p hp with hk | hk
+        · rw [hk]; exact Nat.lt_of_le_of_ne (Nat.le_of_not_lt hnlt) (fun e => hne e.symm)
+        · exact h1 p.1 (List.mem_map.mpr ⟨p, hk, rfl⟩)
+
+theorem PModel.sorted_foldl_insert (l : List (Var × Nat)) (acc : PModel) (h : acc.Sorted) :
+    (l.foldl (fun acc kv => PModel.insert acc kv.1 kv.2) acc).Sorted := by
+  induction l generalizing acc with
+  | nil => exact h
+  | cons kv rest ih => exact ih _ (PModel.sorted_insert h kv.1 kv.2)
+
+theorem PModel.sorted_ofKeys (vals : List Nat) (keys : List Var) : (PModel.ofKeys vals keys).Sorted := by
+  unfold PModel.ofKeys
+  have : ∀ acc : PModel, acc.Sorted → (keys.foldl (fun m k => PModel.insert m k (vals.getD k 0)) acc).Sorted := by
+    induction keys with
+    | nil => intro acc h; exact h
+    | cons k ks ih => intro acc h; exact ih _ (PModel.sorted_insert h k _)
+  exact this [] PModel.sorted_nil
+
+theorem PModel.sorted_restrict {m : PModel} (h : m.Sorted) (vars : List Var) : (m.restrict vars).Sorted := by
+  unfold PModel.Sorted PModel.restrict at *
+  exact h.sublist (List.Sublist.map _ List.filter_sublist)
+
+/-- in a dict, a listed pair is what `get?` finds -/
+theorem PModel.get?_of_mem {m : PModel} (h : m.Sorted) {k x : Nat} (hm : (k, x) ∈ m) : m.get? k = some x := by
+  induction m with
+  | nil => cases hm
+  | cons hd tl ih =>
+    obtain ⟨k', x'⟩ := hd
+    simp only [PModel.Sorted, List.map_cons, List.pairwise_cons] at h
+    rcases List.mem_cons.mp hm with heq | hm
+    · simp only [Prod.mk.injEq] at heq; obtain ⟨rfl, rfl⟩ := heq; simp [PModel.get?]
+    · have hlt : k' < k := h.1 k (List.mem_map.mpr ⟨(k, x), hm, rfl⟩)
+      have hne : ¬ k' = k := Nat.ne_of_lt hlt
+      simp only [PModel.get?, hne, ↓reduceIte]
+      exact ih h.2 hm
+
+theorem PModel.mem_of_get? {m : PModel} {k x : Nat} (h : m.get? k = some x) : (k, x) ∈ m := by
+  induction m with
+  | nil => simp [PModel.get?] at h
+  | cons hd tl ih =>
+    obtain ⟨k', x'⟩ := hd
+    simp only [PModel.get?] at h
+    split at h
+    · rename_i heq; subst heq; simp only [Option.some.injEq] at h; subst h; simp
+    · exact List.mem_cons_of_mem _ (ih h)
+
+/-- `dict(chain(...))` over a dict: the entries of `m` override those of `acc` -/
+theorem PModel.get?_foldl_insert {m : PModel} (h : m.Sorted) (acc : PModel) (v : Nat) :
+    (m.foldl (fun acc kv => PModel.insert acc kv.1 kv.2) acc).get? v = (m.get? v).orElse fun _ => acc.get? v := by
+  induction m generalizing acc with
+  | nil => simp [PModel.get?]
+  | cons hd tl ih =>
+    obtain ⟨k, x⟩ := hd
+    simp only [PModel.Sorted, List.map_cons, List.pairwise_cons] at h
+    simp only [List.foldl_cons, ih h.2, PModel.get?_insert, PModel.get?]
+    by_cases hkv : k = v
+    · subst hkv
+      have : PModel.get? tl k = none := by
+        cases hg : PModel.get? tl k with
+        | none => rfl
+        | some y =>
+          have hlt : k < k := h.1 k (List.mem_map.mpr ⟨(k, y), PModel.mem_of_get? hg, rfl⟩)
+          exact absurd hlt (Nat.lt_irrefl k)
+      simp [this]
+    · simp [hkv, Ne.symm hkv]
+
 theorem PModel.complete_apply (dflt : Var → Nat) (m : PModel) (v : Nat) :
     m.complete dflt v = (m.get? v).getD (dflt v) := rfl
 
